@@ -424,7 +424,7 @@ def c05(res: CheckResult) -> None:
 
 
 # ---- violation messages ----------------------------------------------------------------------------------
-EXPR_CLAUSES = {"msg.depends_on_earlier_calls": {"C20", "C06"}, "msg.operand_evaluated_again": {"C16", "C07"}, "msg.replaced_by_other_exception": {"C07"}, "msg.text": {"C07"}, "msg.header": {"C07"},
+EXPR_CLAUSES = {"msg.depends_on_earlier_calls": {"C20", "C06", "C07"}, "msg.operand_evaluated_again": {"C16", "C07"}, "msg.replaced_by_other_exception": {"C07"}, "msg.text": {"C07"}, "msg.header": {"C07"},
                 "msg.layout_differs": {"C07"}, "msg.touched_skipped_node": {"C07"},
                 "msg.value_missing": {"C06"}, "msg.value_unsound": {"C06"}, "msg.unsorted": {"C20"}}
 EXPR_ASSUMPTIONS = COMMON_ASSUMPTIONS + [
